@@ -88,6 +88,7 @@ Definition PointFromSignAndY (sign : bool) (y : Z) : res point :=
       match modsqrt x with
       | None => Err
       | Some x =>
+          if sign && (x =? 0) then Err else
           let x :=
             if (sign && negb (PointCoordSign x)) || (negb sign && PointCoordSign x)
             then x * Gen.CurveConsts.MinusOne else x in
